@@ -68,6 +68,9 @@ def run_case(target, spec_mod, cname, clause, kwargs):
     import inspect
     m, cls = contract_class(spec_mod, cname)
     args = {}
+    if "__all__" in kwargs:
+        args = dict(eval(kwargs["__all__"]["py"], vars(m)))
+        kwargs = {}
     for k, v in kwargs.items():
         d = decode(v)
         if isinstance(d, tuple) and d and d[0] == "py":
